@@ -177,6 +177,12 @@ def optHeader (name : Bytes) : Option Bytes → Headers
   | none => []
   | some v => if v.isEmpty then [] else [(name, v)]          -- `if self.encoding:` / `if self.gpgsig:`
 
+/-- The header value of a mergetag text: the text without its final LF.  Which cut the code performs is
+read from the source: `if text.endswith(b"\n"): text = text[:-1]` (`OGen.mergetagStripConditional`), or
+the older unconditional `text[:-1]`. -/
+def mergetagValue (raw : Bytes) : Bytes :=
+  if OGen.mergetagStripConditional then stripLastLF raw else raw.dropLast
+
 def commitSlot (c : Commit) : CSlot → Except Err Headers
   | .tree => match c.tree with
     | none => .error .other | some t => .ok [(OGen.hdrTree, t)]
@@ -184,7 +190,7 @@ def commitSlot (c : Commit) : CSlot → Except Err Headers
   | .author => timeHeader OGen.hdrAuthor c.author
   | .committer => timeHeader OGen.hdrCommitter c.committer
   | .encoding => .ok (optHeader OGen.hdrEncoding c.encoding)
-  | .mergetag => .ok (c.mergetag.map fun raw => (OGen.hdrMergetag, raw.dropLast))   -- `as_raw_string()[:-1]`
+  | .mergetag => .ok (c.mergetag.map fun raw => (OGen.hdrMergetag, mergetagValue raw))
   | .extra => .ok c.extra
   | .gpgsig => .ok (optHeader OGen.hdrGpgsig c.gpgsig)
 
@@ -240,7 +246,7 @@ structure Cls (F : Type) where
   alias : Bool                       -- Blob: the only field *is* `_chunked_text`
 
 inductive Op (F : Type) where
-  | set (kind : Nat) (upd : F → F)   -- a public setter; `kind` from `OGen.setters`
+  | set (kind : Nat) (upd : F → F)   -- a public setter; `kind` from `OGen.setters` (0, 1, 3; else: via set_raw_string)
   | setRaw (b : Bytes)               -- `set_raw_string(b)`
   | getId                            -- `.id` / `sha()`
   | asRaw                            -- `as_raw_string()`
@@ -279,6 +285,7 @@ def setStep (C : Cls F) (kind : Nat) (upd : F → F) (s : St F) : St F :=
   match kind with
   | 0 => { s with fields := f', chunks := ch }
   | 1 => { s with fields := f', chunks := ch, needs := true }
+  | 3 => { s with fields := f', chunks := ch, sha := none }        -- `self._sha = None`
   | _ => match C.ser f' with
     | some b => setRawStep C b s
     | none => s
